@@ -770,13 +770,14 @@ def run(ctx):
         if cfg is not None and ctx.model_ok and msteps:
             try:
                 impl = W.canon(dumper.dump(schemas))
-                batch.append((to_model_request(base_world, msteps, cfg), impl, record))
+                pyc = [not [b for b in W.closed_violations(x) if not b.startswith("implementations")] for x in schemas]
+                batch.append((to_model_request(base_world, msteps, cfg), impl, record, pyc))
             except Exception as e:  # noqa
                 ctx.notes.append("dump failed: %s" % e)
     # --- correspondence with the heap model
     if batch:
         answers = ctx.driver.ask([b[0] for b in batch])
-        for (req, impl, record), ans in zip(batch, answers):
+        for (req, impl, record, pyc), ans in zip(batch, answers):
             ctx.count()
             if "error" in ans:
                 ctx.fail("corr:model-error:%s" % ans["error"], "model could not run the sequence", {"record": record, "answer": ans},
@@ -790,8 +791,9 @@ def run(ctx):
                          "object graph of model and implementation differ (impl vs model): %s" % d,
                          {"record": record, "diff": d}, kind="correspondence")
             # the model's closedness verdicts = the oracle's
-            for si, c in enumerate(ans.get("closed", [])):
-                pass
+            if ans.get("closed") != pyc:
+                ctx.fail("corr:closed-verdict", "closedness verdict of the model (closedB) differs from the identity check on the live objects",
+                         {"record": record, "model": ans.get("closed"), "impl": pyc}, kind="correspondence")
     ctx.extra["sequences"] = len(batch)
 
 
